@@ -28,6 +28,18 @@ CHECKS = {
              "relative tolerance 1e-4 (neighbour relation) / 1e-5 (energy). Geometry theorems for arbitrary order (cos/sin monotonicity) are "
              "not formalised: the Gray-neighbour and energy clauses are decided per published table (all orders of the catalogue). Closed under the global context.",
         technique="Coq proof (bitwise induction on N) + kernel-evaluated verified checkers on published tables + model/implementation correspondence by vm_compute"),
+    "C16": dict(
+        text="Coq theorems, generic in the per-batch count function (so BER, BLER, SER, FER alike): for every history of update/compute/"
+             "reset operations (rejected updates included) compute() returns errors/max(total,1) of the batches accepted since the last "
+             "reset and the counters are their exact sums (refinement to a pair of counts, induction over the history); reset restores the "
+             "initial state; order independence under any permutation; BER count additive over any partition (= one shot on the "
+             "concatenation), symmetric, zero iff the thresholded inputs agree, at most 1; BLER additive, symmetric, non-divisor rows "
+             "rejected; BER <= BLER <= min(1, B*BER) as exact cross-multiplied inequalities for every block size. Model tied to the code by "
+             "every history up to length 5 (quick) / 6 (thorough) over a pool of batches, random long histories, one-shot cases.",
+        design="6/C16",
+        note="Trusted: Coq kernel + vm_compute; hand-written model Metrics/ErrorRate.v tied by correspondence; float32 result of compute() "
+             "compared with the correctly rounded exact ratio; int64 counters assumed not to overflow. Closed under the global context.",
+        technique="Coq proof (induction over operation histories, refinement to a pair of counts) + exhaustive/random history correspondence by vm_compute"),
 }
 NOT_YET = {}
 
